@@ -608,6 +608,9 @@ impl<'a> Parser<'a> {
     }
 
     fn parse_unary(&mut self, op: &'a str) -> Result<ExprAST<'a>> {
+        if !PrefixOpManager::new().exist(op) {
+            return Err(Error::PrefixOpNotRegistered(op.to_string()));
+        }
         self.next()?;
         Ok(ExprAST::Unary(op, Box::new(self.parse_primary()?)))
     }
